@@ -31,37 +31,39 @@ Proof.
   now apply descb_spec.
 Qed.
 
-(** In every accepted run, from any well-formed store: whenever a successful command records
+(** In every accepted run, from any well-formed store: whenever a successful command that was
+    not given the explicit override [--ignore-immutable] records
     a visible immutable commit [x] as a predecessor, or makes it invisible, then [x] is the
     invoking workspace's working-copy commit [w], [w] was immutable when the command started,
-    and the command is one that acts on [@] implicitly ([jj commit], [jj new], [jj edit]) —
-    for [jj commit] also a descendant of [w].  No other immutable commit is ever touched. *)
+    and the command is one that acts on [@] implicitly ([jj commit], [jj new], [jj edit]).
+    No other immutable commit is ever touched (the descendant rebase skips immutable
+    commits). *)
 Theorem C42_no_rewrite : forall (evs : list event) (r r' : repo),
   wf_graph (r_graph r) -> run r evs = Some r' ->
   run_prop (fun r ev =>
-    e_status ev = 0%N ->
+    e_status ev = 0%N -> e_override ev = false ->
     forall x, In x (vis_list (r_graph r) (r_view r)) ->
       immb (r_graph r) (r_view r) (e_cfg ev) x = true ->
       (In x (e_rewritten ev) \/ visb (r_graph r ++ e_new ev) (e_view ev) x = false) ->
       exists w, wc_of (r_view r) (e_ws ev) = Some w
                 /\ immb (r_graph r) (r_view r) (e_cfg ev) w = true
                 /\ implicit_wc_cmd (e_cmd ev) = true
-                /\ (x = w \/ (e_cmd ev = CCommit /\ anc (r_graph r) w x))) r evs.
+                /\ x = w) r evs.
 Proof. exact run_no_rewrite. Qed.
 
 (** When the working-copy commit of the invoking workspace is mutable at command start, the
     exception cannot apply: nothing immutable is rewritten or hidden at all. *)
 Corollary C42_no_rewrite_mutable_wc : forall (r r' : repo) (ev : event),
-  wf_graph (r_graph r) -> accept r ev = Some r' -> e_status ev = 0%N ->
+  wf_graph (r_graph r) -> accept r ev = Some r' -> e_status ev = 0%N -> e_override ev = false ->
   (forall w, wc_of (r_view r) (e_ws ev) = Some w ->
              immb (r_graph r) (r_view r) (e_cfg ev) w = false) ->
   forall x, In x (vis_list (r_graph r) (r_view r)) ->
     immb (r_graph r) (r_view r) (e_cfg ev) x = true ->
     ~ In x (e_rewritten ev) /\ visb (r_graph r ++ e_new ev) (e_view ev) x = true.
 Proof.
-  intros r r' ev Hg Ha Hst Hwc x Hx Hi.
+  intros r r' ev Hg Ha Hst Hov Hwc x Hx Hi.
   assert (N : ~ Touched r ev x).
-  { intros T. destruct (accept_no_rewrite r ev r' Hg Ha Hst x Hx Hi T) as [w [Ew [Hw _]]].
+  { intros T. destruct (accept_no_rewrite r ev r' Hg Ha Hst Hov x Hx Hi T) as [w [Ew [Hw _]]].
     rewrite (Hwc w Ew) in Hw. discriminate. }
   split.
   - intros H. apply N. now left.
@@ -75,7 +77,8 @@ Qed.
     no accepted run is any visible immutable commit ever recorded as rewritten or hidden. *)
 Theorem C42_single_workspace_clean : forall (evs : list event) (r r' : repo) (e : hexpr) (ws : N),
   wf_graph (r_graph r) ->
-  (forall ev, In ev evs -> e_cfg ev = e /\ e_ws ev = ws /\ e_cmd ev <> CWorkspaceAdd) ->
+  (forall ev, In ev evs -> e_cfg ev = e /\ e_ws ev = ws /\ e_cmd ev <> CWorkspaceAdd
+                            /\ e_override ev = false) ->
   (forall w, wc_of (r_view r) ws = Some w -> immb (r_graph r) (r_view r) e w = false) ->
   run r evs = Some r' ->
   run_prop (fun r ev =>
@@ -85,18 +88,19 @@ Theorem C42_single_workspace_clean : forall (evs : list event) (r r' : repo) (e 
       ~ (In x (e_rewritten ev) \/ visb (r_graph r ++ e_new ev) (e_view ev) x = false)) r evs.
 Proof. exact run_untouched. Qed.
 
-(** A command succeeds only if every commit it passes to [check_rewritable] is mutable; a
-    refusal names an immutable target; a refused or failed command adds no operation and
+(** A command succeeds only if every commit it passes to [check_rewritable] is mutable under
+    the effective setting ([eff_cfg]: the configured heads, or only the root commit with
+    [--ignore-immutable]); a refusal names an immutable target; a refused or failed command adds no operation and
     leaves view and store alone. *)
 Theorem C42_guarded : forall (evs : list event) (r r' : repo),
   wf_graph (r_graph r) -> run r evs = Some r' ->
   run_prop (fun r ev =>
     (e_status ev = 0%N ->
        forall t, In t (check_targets (r_graph r) (e_cmd ev)) ->
-                 immb (r_graph r) (r_view r) (e_cfg ev) t = false)
+                 immb (r_graph r) (r_view r) (eff_cfg ev) t = false)
     /\ (e_status ev = 1%N ->
           exists t, In t (check_targets (r_graph r) (e_cmd ev))
-                    /\ immb (r_graph r) (r_view r) (e_cfg ev) t = true)
+                    /\ immb (r_graph r) (r_view r) (eff_cfg ev) t = true)
     /\ (e_status ev <> 0%N ->
           e_nops ev = 0 /\ e_view ev = r_view r /\ e_new ev = [] /\ e_rewritten ev = [])) r evs.
 Proof. exact run_guarded. Qed.
@@ -108,7 +112,7 @@ Theorem C42_snapshot_on_immutable : forall (evs : list event) (r r' : repo),
   run_prop (fun r ev =>
     e_status ev = 0%N -> e_cmd ev = CSnapshot ->
     forall w, wc_of (r_view r) (e_ws ev) = Some w ->
-      immb (r_graph r) (r_view r) (e_cfg ev) w = true ->
+      immb (r_graph r) (r_view r) (eff_cfg ev) w = true ->
       e_rewritten ev = []
       /\ (forall x, In x (vis_list (r_graph r) (r_view r)) ->
                     visb (r_graph r ++ e_new ev) (e_view ev) x = true)
@@ -124,12 +128,12 @@ Theorem C42_checker_spec : forall (strict : bool) (evs : list event) (g : graph)
      match evs with
      | [] => True
      | ev :: t =>
-         ((forall x, In x (e_imm_pre ev) ->
+         ((e_override ev = false -> forall x, In x (e_imm_pre ev) ->
              (In x (e_rewritten ev) \/ ~ In x (e_vis_post ev)) ->
              strict = false
              /\ exists w, wc_of v (e_ws ev) = Some w /\ In w (e_imm_pre ev)
                           /\ implicit_wc_cmd (e_cmd ev) = true
-                          /\ (x = w \/ (e_cmd ev = CCommit /\ is_anc g w x = true)))
+                          /\ x = w)
           /\ (e_status ev <> 0%N -> e_nops ev = 0 /\ v = e_view ev))
          /\ ok (g ++ e_new ev) (e_view ev) t
      end) g v evs.
@@ -150,7 +154,7 @@ Proof. exact run_accept_ok. Qed.
     calls [check_rewritable], so a working-copy commit that is already immutable when the
     command starts is rewritten (known finding, class [wc-commit-immutable-at-start]). *)
 Definition C42_full : Prop := forall (r r' : repo) (ev : event),
-  wf_graph (r_graph r) -> accept r ev = Some r' -> e_status ev = 0%N ->
+  wf_graph (r_graph r) -> accept r ev = Some r' -> e_status ev = 0%N -> e_override ev = false ->
   forall x, In x (vis_list (r_graph r) (r_view r)) ->
     immb (r_graph r) (r_view r) (e_cfg ev) x = true ->
     ~ In x (e_rewritten ev).
@@ -158,7 +162,7 @@ Definition C42_full : Prop := forall (r r' : repo) (ev : event),
 Definition witness_repo : repo :=
   mk_repo [[]; [0]; [1]] (mk_view [2] [] [] [(0%N, 2)]) [].
 Definition witness_event : event :=
-  mk_event 0%N (HCommit 2) CCommit 0%N 1 [[1]; [3]] [4] [2]
+  mk_event 0%N (HCommit 2) false CCommit 0%N 1 [[1]; [3]] [4] [2]
            (mk_view [4] [] [] [(0%N, 4)]) [0; 1; 2] [0; 1; 3; 4].
 
 Theorem C42_full_refuted : ~ C42_full.
@@ -167,7 +171,7 @@ Proof.
   assert (A : accept witness_repo witness_event
               = Some (mk_repo [[]; [0]; [1]; [1]; [3]] (mk_view [4] [] [] [(0%N, 4)]) [4]))
     by (vm_compute; reflexivity).
-  refine (H witness_repo _ witness_event _ A eq_refl 2 _ _ _).
+  refine (H witness_repo _ witness_event _ A eq_refl eq_refl 2 _ _ _).
   - apply wf_graphb_spec. vm_compute. reflexivity.
   - vm_compute. auto.
   - vm_compute. reflexivity.
@@ -178,13 +182,18 @@ Qed.
     rewrite of a mutable commit with its descendant, and a snapshot on an immutable [@]. *)
 Example C42_nonvacuous :
   let r0 := mk_repo [[]; [0]; [1]; [2]] (mk_view [3] [(1%N, 1)] [] [(0%N, 3)]) [] in
-  let e1 := mk_event 0%N (HBookmark 1) (CDescribe [1]) 1%N 0 [] [] []
+  let e1 := mk_event 0%N (HBookmark 1) false (CDescribe [1]) 1%N 0 [] [] []
                      (mk_view [3] [(1%N, 1)] [] [(0%N, 3)]) [0; 1] [0; 1; 2; 3] in
-  let e2 := mk_event 0%N (HBookmark 1) (CDescribe [2]) 0%N 1 [[1]; [4]] [] [2; 3]
+  let e2 := mk_event 0%N (HBookmark 1) false (CDescribe [2]) 0%N 1 [[1]; [4]] [] [2; 3]
                      (mk_view [5] [(1%N, 1)] [] [(0%N, 5)]) [0; 1] [0; 1; 4; 5] in
-  let e3 := mk_event 0%N (HCommit 5) CSnapshot 0%N 1 [[5]] [] []
+  let e3 := mk_event 0%N (HCommit 5) false CSnapshot 0%N 1 [[5]] [] []
                      (mk_view [6] [(1%N, 1)] [] [(0%N, 6)]) [0; 1; 4; 5] [0; 1; 4; 5; 6] in
+  (* the same describe of the bookmarked commit with the explicit override: accepted *)
+  let e1o := mk_event 0%N (HBookmark 1) true (CDescribe [1]) 0%N 1 [[0]; [4]; [5]; [6]] [] [1; 2; 3]
+                      (mk_view [7] [(1%N, 4)] [] [(0%N, 7)]) [0; 1] [0; 4; 5; 6; 7] in
   wf_graphb (r_graph r0) = true
+  /\ (exists r1, run r0 [e1o] = Some r1)
+  /\ run_okb true (r_graph r0) (r_view r0) [e1o] = true
   /\ (exists r3, run r0 [e1; e2; e3] = Some r3)
   /\ run_okb true (r_graph r0) (r_view r0) [e1; e2; e3] = true
   /\ refuses (r_graph r0) (r_view r0) (HBookmark 1) (CDescribe [1]) = true.
